@@ -1,6 +1,6 @@
 (* C10 — lemmas about the plugin layer (Plugin.v). *)
 From Coq Require Import List ZArith Bool Lia.
-From Verif Require Import C10.Model C10.Proofs C10.Proofs3 C10.Plugin.
+From Verif Require Import C10.Model C10.Proofs C10.Proofs2 C10.Proofs3 C10.Plugin.
 Import ListNotations.
 Open Scope Z_scope.
 
@@ -531,4 +531,183 @@ Proof.
   - intros [b0 [sc0 [_ [S _]]]]. discriminate.
   - discriminate.
   - intros [b0 [sc0 [A _]]]. discriminate.
+Qed.
+
+(* ------------------------------------------------------------------ *)
+(* a request the queue has answered carries its status code            *)
+
+Lemma step_ids : forall c s a s', step c s a = Some s' ->
+  map rid (reqs s') = map rid (reqs s) ++
+    match a with EnqLocked id _ _ _ _ => [id] | _ => [] end.
+Proof.
+  intros c s a s' H. destruct a as [id p t l now|id now|now|id now|id now]; cbn [step] in H.
+  - destruct (find id (reqs s)); [discriminate|]. inversion H; subst. unfold enq_locked.
+    destruct (counter (roll c s now) <? quota c);
+      [|destruct (qsize c <=? qcount (reqs (roll c s now)))]; simpl;
+      rewrite map_app, roll_reqs; reflexivity.
+  - destruct (find id (reqs s)) as [r|]; [|discriminate].
+    destruct (phase_eqb (ph r) Unlocked); [|discriminate]. inversion H; subst; simpl.
+    rewrite map_rid_upd; [now rewrite app_nil_r|apply fpres_set_park].
+  - inversion H; subst. unfold tick.
+    destruct (drain c now (heap (roll c s now)) (roll c s now)) as [s1 rel] eqn:D. simpl.
+    apply drain_all in D. destruct D as [_ [E _]].
+    rewrite app_nil_r, !map_rid_rsig, E, roll_reqs. reflexivity.
+  - destruct (find id (reqs s)) as [r|]; [|discriminate].
+    destruct (phase_eqb (ph r) Parked && (dl r <=? now)); [|discriminate]. inversion H; subst; simpl.
+    rewrite map_rid_upd; [now rewrite app_nil_r|apply fpres_set_ph].
+  - destruct (find id (reqs s)) as [r|]; [|discriminate].
+    destruct ((phase_eqb (ph r) Released || phase_eqb (ph r) Expired) && counted r); [|discriminate].
+    inversion H; subst; simpl.
+    rewrite map_rid_upd; [now rewrite app_nil_r|apply fpres_set_ret].
+Qed.
+
+Definition ENQD (ks : kst) : Prop :=
+  NoDup (map q_rid (preqs ks)) /\
+  (forall s r, In s (insts ks) -> In r (reqs s) ->
+     exists q, In q (preqs ks) /\ q_rid q = rid r /\ q_status q <> None).
+
+Lemma pfind_None : forall id l, pfind id l = None -> ~ In id (map q_rid l).
+Proof.
+  induction l as [|x t IH]; simpl; intros H; [tauto|].
+  destruct (q_rid x =? id) eqn:E; [discriminate|]. apply Z.eqb_neq in E.
+  intros [G|G]; [auto|]. now apply IH.
+Qed.
+
+Lemma map_q_rid_pupd : forall id f l, (forall q, q_rid (f q) = q_rid q) ->
+  map q_rid (pupd id f l) = map q_rid l.
+Proof.
+  intros id f l P. induction l as [|x t IH]; simpl; [reflexivity|].
+  destruct (q_rid x =? id); simpl; [now rewrite P|now rewrite IH].
+Qed.
+
+Lemma In_pupd_fwd : forall id f l q, In q l -> In q (pupd id f l) \/ In (f q) (pupd id f l).
+Proof.
+  induction l as [|x t IH]; simpl; intros q I; [tauto|].
+  destruct (q_rid x =? id); simpl.
+  - destruct I as [I|I]; [subst; right; auto|left; auto].
+  - destruct I as [I|I]; [left; auto|]. destruct (IH _ I); [left|right]; auto.
+Qed.
+
+Lemma pfind_pupd_In : forall id f l q, pfind id l = Some q -> In (f q) (pupd id f l).
+Proof.
+  induction l as [|x t IH]; simpl; intros q H; [discriminate|].
+  destruct (q_rid x =? id); simpl; [inversion H; subst; auto|right; auto].
+Qed.
+
+Lemma In_set_nth : forall n (x : st) l y, In y (set_nth n x l) -> In y l \/ y = x.
+Proof.
+  induction n as [|n IH]; intros x [|z t] y I; simpl in *; try tauto.
+  - destruct I as [I|I]; auto.
+  - destruct I as [I|I]; [auto|]. destruct (IH _ _ _ I); auto.
+Qed.
+
+Lemma NoDup_map_inj : forall (l : list preq) a b,
+  NoDup (map q_rid l) -> In a l -> In b l -> q_rid a = q_rid b -> a = b.
+Proof.
+  induction l as [|x t IH]; simpl; intros a b N Ia Ib E; [tauto|].
+  inversion N as [|? ? NI N']; subst.
+  destruct Ia as [Ia|Ia], Ib as [Ib|Ib]; subst; auto.
+  - exfalso. apply NI. rewrite E. now apply in_map.
+  - exfalso. apply NI. rewrite <- E. now apply in_map.
+Qed.
+
+(* witnesses survive an update that keeps ids and does not erase a status *)
+Lemma witness_pupd : forall id f l (rd : Z),
+  (forall q, q_rid (f q) = q_rid q) ->
+  (forall q, q_status q <> None -> q_status (f q) <> None) ->
+  (exists q, In q l /\ q_rid q = rd /\ q_status q <> None) ->
+  exists q, In q (pupd id f l) /\ q_rid q = rd /\ q_status q <> None.
+Proof.
+  intros id f l rd P1 P2 [q [I [E S]]].
+  destruct (In_pupd_fwd id f l q I) as [G|G]; [exists q; auto|].
+  exists (f q). split; [exact G|]. split; [now rewrite P1|now apply P2].
+Qed.
+
+Lemma ENQD_kstep : forall v k ks a ks', ENQD ks -> kstep v k ks a = Some ks' -> ENQD ks'.
+Proof.
+  intros v k ks a ks' [ND W] H.
+  assert (Upd : forall h s s' (P : preq -> preq) l',
+            nth_error (insts ks) h = Some s ->
+            map rid (reqs s') = map rid (reqs s) ->
+            (forall rd, (exists q, In q (preqs ks) /\ q_rid q = rd /\ q_status q <> None) ->
+                        exists q, In q l' /\ q_rid q = rd /\ q_status q <> None) ->
+            forall s1 r, In s1 (set_nth h s' (insts ks)) -> In r (reqs s1) ->
+            exists q, In q l' /\ q_rid q = rid r /\ q_status q <> None).
+  { intros h s s' P l' N E K s1 r I1 Ir. apply K.
+    destruct (In_set_nth _ _ _ _ I1) as [I|I]; [eapply W; eauto|]. subst s1.
+    assert (Ir' : In (rid r) (map rid (reqs s))) by (rewrite <- E; now apply in_map).
+    apply in_map_iff in Ir'. destruct Ir' as [r0 [E0 I0]]. rewrite <- E0.
+    eapply W; eauto. eapply nth_error_In; eauto. }
+  destruct a as [rid0 now|rid0 now|rid0 p hdrs t now|rid0 ra now|h now]; cbn [kstep] in H.
+  - destruct (pfind rid0 (preqs ks)) eqn:PF; [discriminate|].
+    assert (ND' : forall q0, q_rid q0 = rid0 -> NoDup (map q_rid (preqs ks ++ [q0]))).
+    { intros q0 E0. rewrite map_app. simpl. apply NoDup_snoc; [exact ND|]. rewrite E0. now apply pfind_None. }
+    assert (W' : forall q0 s r, In s (insts ks) -> In r (reqs s) ->
+              exists q, In q (preqs ks ++ [q0]) /\ q_rid q = rid r /\ q_status q <> None).
+    { intros q0 s r Is Ir. destruct (W s r Is Ir) as [q [I [E S]]]. exists q. split; [apply in_or_app; auto|auto]. }
+    destruct (cur ks).
+    + inversion H; subst; unfold ENQD; simpl. split; [now apply ND'|apply W'].
+    + destruct v; inversion H; subst; unfold ENQD; simpl; (split; [now apply ND'|]).
+      * intros s r Is Ir. apply in_app_or in Is. destruct Is as [Is|[Is|[]]]; [apply (W' _ s r Is Ir)|].
+        subst s. simpl in Ir. tauto.
+      * apply W'.
+  - destruct v; [discriminate|]. destruct (pfind rid0 (preqs ks)) as [q|]; [|discriminate].
+    destruct (q_inst q); [discriminate|]. inversion H; subst; unfold ENQD; simpl. split.
+    + rewrite map_q_rid_pupd; [exact ND|reflexivity].
+    + intros s r Is Ir. apply in_app_or in Is. destruct Is as [Is|[Is|[]]]; [|subst s; simpl in Ir; tauto].
+      apply witness_pupd; [reflexivity|auto|]. eapply W; eauto.
+  - destruct (pfind rid0 (preqs ks)) as [q|] eqn:PF; [|discriminate].
+    destruct (q_inst q) as [h|]; [|discriminate]. destruct (q_status q); [discriminate|].
+    destruct (nth_error (insts ks) h) as [s|] eqn:N; [|discriminate].
+    destruct (step _ s _) as [s'|] eqn:S; [|discriminate].
+    inversion H; subst; unfold ENQD; simpl. split.
+    + rewrite map_q_rid_pupd; [exact ND|reflexivity].
+    + pose proof (step_ids _ _ _ _ S) as E. simpl in E.
+      intros s1 r I1 Ir.
+      assert (K : forall rd, (exists q, In q (preqs ks) /\ q_rid q = rd /\ q_status q <> None) ->
+                  exists q, In q (pupd rid0 (set_status (p_status p)) (preqs ks)) /\ q_rid q = rd /\ q_status q <> None).
+      { intros rd X. apply witness_pupd; [reflexivity|simpl; discriminate|exact X]. }
+      destruct (In_set_nth _ _ _ _ I1) as [I|I]; [apply K; eapply W; eauto|]. subst s1.
+      assert (Ir' : In (rid r) (map rid (reqs s'))) by now apply in_map.
+      rewrite E in Ir'. apply in_app_or in Ir'. destruct Ir' as [Ir'|[Ir'|[]]].
+      * apply in_map_iff in Ir'. destruct Ir' as [r0 [E0 I0]]. rewrite <- E0.
+        apply K. eapply W; eauto. eapply nth_error_In; eauto.
+      * exists (set_status (p_status p) q). split; [now apply pfind_pupd_In|]. simpl.
+        split; [rewrite <- Ir'; now apply (pfind_rid _ _ _ PF)|discriminate].
+  - destruct (pfind rid0 (preqs ks)) as [q|]; [|discriminate].
+    destruct (q_inst q) as [h|]; [|discriminate]. destruct (q_status q); [|discriminate].
+    destruct (nth_error (insts ks) h) as [s|] eqn:N; [|discriminate].
+    destruct (step _ s _) as [s'|] eqn:S; [|discriminate].
+    inversion H; subst; unfold ENQD; simpl. split; [exact ND|].
+    pose proof (step_ids _ _ _ _ S) as E.
+    apply (Upd h s s' (fun q => q) (preqs ks) N); [|auto].
+    rewrite E. destruct ra; simpl; apply app_nil_r.
+  - destruct (nth_error (insts ks) h) as [s|] eqn:N; [|discriminate].
+    destruct (step _ s _) as [s'|] eqn:S; [|discriminate].
+    inversion H; subst; unfold ENQD; simpl. split; [exact ND|].
+    pose proof (step_ids _ _ _ _ S) as E. simpl in E. rewrite app_nil_r in E.
+    apply (Upd h s s' (fun q => q) (preqs ks) N); auto.
+Qed.
+
+Lemma ENQD_krun : forall v k acts, ENQD (krun v k kinit acts).
+Proof.
+  intros v k acts. apply (krun_inv ENQD v k).
+  - intros ks a ks' E H. eapply ENQD_kstep; eauto.
+  - split; [constructor|intros s r []].
+Qed.
+
+Lemma answer_has_status : forall ks rid,
+  ENQD ks -> kanswer ks rid <> None -> kstatus ks rid <> None.
+Proof.
+  intros ks rid0 [ND W] A. unfold kanswer, kstatus in *.
+  destruct (pfind rid0 (preqs ks)) as [q|] eqn:PF; [|congruence].
+  destruct (q_inst q) as [h|]; [|congruence].
+  destruct (nth_error (insts ks) h) as [s|] eqn:N; [|congruence].
+  destruct (find rid0 (reqs s)) as [r|] eqn:F; [|congruence].
+  destruct (find_In _ _ _ F) as [Ir Er].
+  destruct (W s r (nth_error_In _ _ N) Ir) as [q' [I' [E' S']]].
+  assert (q = q').
+  { apply (NoDup_map_inj (preqs ks)); auto; [eapply pfind_In; eauto|].
+    rewrite (pfind_rid _ _ _ PF). congruence. }
+  subst q'. exact S'.
 Qed.
